@@ -124,6 +124,8 @@ def classify(check, info, case):
         return "union.piecewise-orientation-rejects-samples-outside-oriented-operand"
     if check in ("uniformity", "never-succeeds") and "grid" in kinds and op in ("or", "sub") and rc in ("UnionRegion", "DifferenceRegion"):
         return "grid.cell-membership-inconsistent-with-pointset-measure"
+    if "grid" in kinds and kinds <= {"grid", "pointset"} and check in ("member", "discrete.unreachable", "discrete.nonuniform", "empty"):
+        return "grid.cell-membership-inconsistent-with-pointset-measure"
     if info.get("pointset_ignores_z"):
         return "pointset.intersection-sampler-ignores-height-of-planar-operand"
     if info.get("sector_circumcircle"):
